@@ -270,7 +270,7 @@ func watPrinter_printFuncs_body_ins(
 		if x := insLoad.Offset; x != 0 {
 			fmt.Fprintf(w, " offset=%d", x)
 		}
-		if x := insLoad.Align; x != 4 {
+		if x := insLoad.Align; x != 1 {
 			fmt.Fprintf(w, " align=%d", x)
 		}
 		fmt.Fprintln(w)
@@ -280,7 +280,7 @@ func watPrinter_printFuncs_body_ins(
 		if x := insLoad.Offset; x != 0 {
 			fmt.Fprintf(w, " offset=%d", x)
 		}
-		if x := insLoad.Align; x != 4 {
+		if x := insLoad.Align; x != 1 {
 			fmt.Fprintf(w, " align=%d", x)
 		}
 		fmt.Fprintln(w)
@@ -310,7 +310,7 @@ func watPrinter_printFuncs_body_ins(
 		if x := insLoad.Offset; x != 0 {
 			fmt.Fprintf(w, " offset=%d", x)
 		}
-		if x := insLoad.Align; x != 8 {
+		if x := insLoad.Align; x != 1 {
 			fmt.Fprintf(w, " align=%d", x)
 		}
 		fmt.Fprintln(w)
@@ -320,7 +320,7 @@ func watPrinter_printFuncs_body_ins(
 		if x := insLoad.Offset; x != 0 {
 			fmt.Fprintf(w, " offset=%d", x)
 		}
-		if x := insLoad.Align; x != 8 {
+		if x := insLoad.Align; x != 1 {
 			fmt.Fprintf(w, " align=%d", x)
 		}
 		fmt.Fprintln(w)
@@ -330,7 +330,7 @@ func watPrinter_printFuncs_body_ins(
 		if x := insLoad.Offset; x != 0 {
 			fmt.Fprintf(w, " offset=%d", x)
 		}
-		if x := insLoad.Align; x != 8 {
+		if x := insLoad.Align; x != 2 {
 			fmt.Fprintf(w, " align=%d", x)
 		}
 		fmt.Fprintln(w)
@@ -360,7 +360,7 @@ func watPrinter_printFuncs_body_ins(
 		if x := insLoad.Offset; x != 0 {
 			fmt.Fprintf(w, " offset=%d", x)
 		}
-		if x := insLoad.Align; x != 8 {
+		if x := insLoad.Align; x != 4 {
 			fmt.Fprintf(w, " align=%d", x)
 		}
 		fmt.Fprintln(w)
@@ -380,7 +380,7 @@ func watPrinter_printFuncs_body_ins(
 		if x := insLoad.Offset; x != 0 {
 			fmt.Fprintf(w, " offset=%d", x)
 		}
-		if x := insLoad.Align; x != 2 {
+		if x := insLoad.Align; x != 8 {
 			fmt.Fprintf(w, " align=%d", x)
 		}
 		fmt.Fprintln(w)
@@ -410,7 +410,7 @@ func watPrinter_printFuncs_body_ins(
 		if x := insLoad.Offset; x != 0 {
 			fmt.Fprintf(w, " offset=%d", x)
 		}
-		if x := insLoad.Align; x != 4 {
+		if x := insLoad.Align; x != 1 {
 			fmt.Fprintf(w, " align=%d", x)
 		}
 		fmt.Fprintln(w)
@@ -430,7 +430,7 @@ func watPrinter_printFuncs_body_ins(
 		if x := insLoad.Offset; x != 0 {
 			fmt.Fprintf(w, " offset=%d", x)
 		}
-		if x := insLoad.Align; x != 8 {
+		if x := insLoad.Align; x != 1 {
 			fmt.Fprintf(w, " align=%d", x)
 		}
 		fmt.Fprintln(w)
@@ -450,7 +450,7 @@ func watPrinter_printFuncs_body_ins(
 		if x := insLoad.Offset; x != 0 {
 			fmt.Fprintf(w, " offset=%d", x)
 		}
-		if x := insLoad.Align; x != 8 {
+		if x := insLoad.Align; x != 4 {
 			fmt.Fprintf(w, " align=%d", x)
 		}
 		fmt.Fprintln(w)
